@@ -220,3 +220,47 @@ pub fn hash_f64s(x: &[f64]) -> String {
     }
     format!("{:016x}", h)
 }
+
+// ---------------------------------------------------------------------------
+// Accessors for the exact-lattice conformance checks (C02)
+// ---------------------------------------------------------------------------
+
+/// A new diagonal transformation with explicitly given scales and means.
+pub fn diag_mass_matrix<M: crate::Math>(math: &mut M, stds: &[f64], mean: &[f64]) -> DiagMassMatrix<M> {
+    let mut mm = DiagMassMatrix::new(math, true);
+    let mut s = math.new_array();
+    math.read_from_slice(&mut s, stds);
+    let mut m = math.new_array();
+    math.read_from_slice(&mut m, mean);
+    mm.set_transform(math, &s, &m);
+    mm
+}
+
+/// A new (empty) low-rank transformation; fill it with `LowRankMassMatrix::update`.
+pub fn low_rank_mass_matrix<M: crate::Math>(math: &mut M) -> LowRankMassMatrix<M> {
+    LowRankMassMatrix::new(math, crate::LowRankSettings::default())
+}
+
+/// Overwrite the velocity of a state that has no other handle.
+pub fn point_set_velocity<M: crate::Math>(
+    math: &mut M,
+    state: &mut State<M, TransformedPoint<M>>,
+    velocity: &[f64],
+) {
+    let point = state.try_point_mut().expect("state has other handles");
+    math.read_from_slice(&mut point.velocity, velocity);
+}
+
+/// All vectors and scalars of a phase-space point.
+pub fn point_dump<M: crate::Math>(math: &mut M, state: &State<M, TransformedPoint<M>>) -> Json {
+    let p = state.point();
+    json!({
+        "x": math.box_array(&p.untransformed_position).to_vec(),
+        "gx": math.box_array(&p.untransformed_gradient).to_vec(),
+        "y": math.box_array(&p.transformed_position).to_vec(),
+        "gy": math.box_array(&p.transformed_gradient).to_vec(),
+        "v": math.box_array(&p.velocity).to_vec(),
+        "logp": Point::logp(p), "energy": Point::energy(p), "initial_energy": Point::initial_energy(p),
+        "idx": Point::index_in_trajectory(p),
+    })
+}
